@@ -32,7 +32,8 @@ func (d *Data) getHiresChanges(hires downres.BlockMap) (octantMap, error) {
 		downresY := hresCoord[1] >> 1
 		downresZ := hresCoord[2] >> 1
 		loresZYX := dvid.ChunkPoint3d{downresX, downresY, downresZ}.ToIZYXString()
-		octidx := ((hresCoord[2] % 2) << 2) + ((hresCoord[1] % 2) << 1) + (hresCoord[0] % 2)
+		// use the low bit (not %) so negative odd block coordinates give 1 and agree with the >> 1 above
+		octidx := ((hresCoord[2] & 1) << 2) + ((hresCoord[1] & 1) << 1) + (hresCoord[0] & 1)
 		oct, found := octants[loresZYX]
 		if !found {
 			oct = [8]*labels.Block{}
